@@ -270,7 +270,15 @@ fn check_set(run: &Run, base: &Node, u: &St, parent: &Sealed, names: &[String], 
             Some(c.seal(None).to_block())
         }) {
             if let Some(blk) = blk {
-                debug_assert_eq!(&blk.header, none);
+                if &blk.header != none {
+                    // the same batch applied to the same state and sealed the same way, twice in this process
+                    run.violation(
+                        "C03",
+                        format!("same-batch-sealed-twice-gives-different-headers/{}/{}", header_diff(none, &blk.header).join(","), kinds_of(s)),
+                        format!("set {{{}}} after [{}]: applying the batch and sealing it a second time gives another header", names.join(", "), base.path_str()),
+                        replay.clone(),
+                    );
+                }
                 for round in 0..3 {
                     let mut hs: HashSet<Transaction> = HashSet::new();
                     // insertion order varies as well
